@@ -77,10 +77,15 @@ type dissolvexCfg struct {
 	prefill    int  // jobs submitted before Run()
 	submitters int  // 1: main thread order j0, j1, ...; 2: the jobs are split over two threads
 	fails      string // job i fails its first fails[i]-'0' runs; "*": f in {0,1} chosen per job by ChooseFree
+	workers    int    // 0: two workers
 }
 
 func (c dissolvexCfg) name() string {
-	return fmt.Sprintf("j%d/closer-%v/prefill%d/sub%d/fail-%s", c.jobs, c.closer, c.prefill, c.submitters, c.fails)
+	w := ""
+	if c.workers > 0 {
+		w = fmt.Sprintf("w%d/", c.workers)
+	}
+	return fmt.Sprintf("%sj%d/closer-%v/prefill%d/sub%d/fail-%s", w, c.jobs, c.closer, c.prefill, c.submitters, c.fails)
 }
 
 var dissolvexCfgs = map[string]dissolvexCfg{}
@@ -118,6 +123,16 @@ func dissolvexVariants(tier string) []vsched.Variant {
 			add(dissolvexCfg{jobs: 2, closer: true, prefill: 2, submitters: 1, fails: p}, 2, (sh+1)/2)
 		}
 	}
+	// a single worker: a job submitted while the only worker is between "queue is empty" and its
+	// wait must still run (with two workers the other one usually picks it up and hides a lost wake-up)
+	for _, p := range []string{"00", "10", "01"} {
+		if tier == "thorough" {
+			add(dissolvexCfg{jobs: 2, workers: 1, submitters: 1, fails: p}, 3, 2)
+			add(dissolvexCfg{jobs: 2, workers: 1, closer: true, submitters: 1, fails: p}, 2, 2)
+		} else {
+			add(dissolvexCfg{jobs: 2, workers: 1, submitters: 1, fails: p}, 2, 1)
+		}
+	}
 	if tier == "thorough" {
 		add(dissolvexCfg{jobs: 3, closer: true, prefill: 3, submitters: 1, fails: "*"}, 2, 8)
 		for _, p := range []string{"000", "100", "010", "001", "110", "011", "111", "201"} {
@@ -135,7 +150,7 @@ func dissolvexVariants(tier string) []vsched.Variant {
 func init() {
 	vsched.Register(&vsched.Harness{
 		Name: "dissolvex", Props: []string{"C40"}, Kind: "sched",
-		Doc: "dissolve.New(2) with 2-3 jobs, each failing its first f runs (two jobs: every pattern over f in {0,1,2}, one variant each; three jobs: f in {0,1}); jobs submitted before Run (prefill) and by 1-2 submitter threads; " +
+		Doc: "dissolve.New(2) (w1 variants: New(1)) with 2-3 jobs, each failing its first f runs (two jobs: every pattern over f in {0,1,2}, one variant each; three jobs: f in {0,1}); jobs submitted before Run (prefill) and by 1-2 submitter threads; " +
 			"optional concurrent closer; deviation bound 1-3; oracle: no closer => every job runs exactly f+1 times (last run nil); never a run after a successful run; " +
 			"every run that starts after Close took effect was dequeued by its worker before that; Submit fails only once Close began; a job submitted after Close is rejected and never runs",
 		Variants: dissolvexVariants,
@@ -161,7 +176,11 @@ func dissolvexBody(cfg dissolvexCfg) func() {
 		closeStart := 0
 		var order []int // job ids in the order their runs started
 
-		d := New(2)
+		nw := 2
+		if cfg.workers > 0 {
+			nw = cfg.workers
+		}
+		d := New(nw)
 		d.queue = &dissolvexQueue{inner: d.queue, st: st}
 
 		mkJob := func(i int) Job {
